@@ -7,6 +7,8 @@ import (
 	"container/list"
 	"encoding/json"
 	"fmt"
+	"runtime"
+	"sync/atomic"
 	"testing"
 
 	"github.com/teivah/majorana/proc/comp"
@@ -349,27 +351,29 @@ func runQueue(ops []busOp) (err error) {
 			model = append(model, next)
 			next++
 		case "pick", "get":
-			// iterate, removing the items with the drawn parity
+			// iterate, removing the items with the drawn parity *during* the
+			// iteration, as the control units do with their pending instructions:
+			// every element present at the start must still be visited, in order
 			var seen []int
-			var elems []*list.Element
+			var keep []int
+			var e0 *list.Element
 			for e := range q.Iterator() {
-				seen = append(seen, q.Value(e))
-				elems = append(elems, e)
+				v := q.Value(e)
+				seen = append(seen, v)
+				if v%2 == op.Arg%2 {
+					q.Remove(e)
+				} else {
+					keep = append(keep, v)
+				}
+				e0 = e
 			}
+			_ = e0
 			if len(seen) != len(model) {
-				return fmt.Errorf("step %d: iterator yields %v, model %v", i, seen, model)
+				return fmt.Errorf("step %d: the iterator visits %v while elements are removed during the iteration, the queue held %v", i, seen, model)
 			}
 			for k := range seen {
 				if seen[k] != model[k] {
 					return fmt.Errorf("step %d: iterator yields %v, model %v", i, seen, model)
-				}
-			}
-			var keep []int
-			for k, e := range elems {
-				if seen[k]%2 == op.Arg%2 {
-					q.Remove(e)
-				} else {
-					keep = append(keep, seen[k])
 				}
 			}
 			model = keep
@@ -387,6 +391,8 @@ func runBus(c busCase, stats map[string]int) error {
 		return runSimple(c, stats)
 	case "queue":
 		return runQueue(c.Ops)
+	case "queueiterate":
+		return nil // a schedule sample: re-run the job (TestC14QueueIterate)
 	}
 	return runBuffered(c, stats)
 }
@@ -493,4 +499,71 @@ func TestC14Exhaustive(t *testing.T) {
 	}
 	h.Evals(n)
 	h.NontrivialBulk(nt)
+}
+
+// TestC14QueueIterate samples goroutine schedules of the queue iterator: the
+// control units remove every element they are handed while the iterator's
+// producer goroutine is still walking the list. Every element present at the
+// start must be visited, in order, whatever the interleaving.
+func TestC14QueueIterate(t *testing.T) { queueIterate(t, "C14") }
+
+// TestC08QueueIterate is the same schedule sampling under C08 (the queue
+// iterator is one of the two goroutines inside the simulator).
+func TestC08QueueIterate(t *testing.T) { queueIterate(t, "C08") }
+
+func queueIterate(t *testing.T, prop string) {
+	h := hx.Begin(t, prop, "queueiterate")
+	n := h.Env.Count
+	if n == 0 {
+		n = 20000
+	}
+	// perturb the goroutine schedule: garbage collections stop the world, i.e.
+	// preempt the iterator's producer goroutine at arbitrary instructions
+	var stop atomic.Bool
+	defer stop.Store(true)
+	for g := 0; g < 3; g++ {
+		go func() {
+			for !stop.Load() {
+				_ = make([]byte, 1<<16)
+				runtime.GC()
+			}
+		}()
+	}
+	var nt int64
+	for it := 0; it < n; it++ {
+		size := 2 + it%9
+		q := comp.NewQueue[int](size)
+		for k := 0; k < size; k++ {
+			q.Push(k)
+		}
+		var seen []int
+		func() {
+			defer func() {
+				if r := recover(); r != nil {
+					seen = append(seen, -1)
+				}
+			}()
+			for e := range q.Iterator() {
+				seen = append(seen, q.Value(e))
+				if it%3 != 2 || q.Value(e)%2 == 0 {
+					q.Remove(e)
+				}
+			}
+		}()
+		ok := len(seen) == size
+		for k := 0; ok && k < size; k++ {
+			ok = seen[k] == k
+		}
+		if !ok {
+			c := busCase{Kind: "queueiterate", In: size, Ops: []busOp{{Op: "iterate-and-remove", Arg: it}}}
+			msg := fmt.Sprintf("iteration %d: the iterator visited %v of a queue holding 0..%d while the consumer removed elements", it, seen, size-1)
+			h.Evals(int64(it + 1))
+			h.Fail("bus", c, size, msg)
+			t.Fatalf("%s", msg)
+		}
+		nt++
+	}
+	h.Evals(int64(n))
+	h.NontrivialBulk(nt / 9) // distinct shapes: sizes 2..10 x removal pattern; counted conservatively
+	h.Sample(busCase{Kind: "queueiterate", In: 10, Ops: []busOp{{Op: "iterate-and-remove"}}})
 }
